@@ -320,15 +320,62 @@ CHECKS = {
         note=TRUST + "Quick: <= 2 steps (a step = SET ROLE + action), thorough <= 3. One-directional where the property is: refusing a statement although the "
              "privileges are present is accepted; an UPDATE / DELETE that only lacks SELECT for a subquery may end as a no-op. DDL under a restricted role, "
              "column privileges and role membership are outside the model."),
+    "C23": dict(
+        engine="total", category="exploration",
+        technique="input model in TLA+ (MC_Parser.tla: small-scope token sequences, one-step mutations of seed statements, nesting shapes) enumerated by TLC; every input parsed by the real parser (deep nesting in child processes); outcomes validated by TLC against the outcome alphabet (TraceArith.tla)",
+        design="DESIGN.md section 6 (C23), section 10",
+        text="MC_Parser.tla is the input model: (small) every token sequence up to length 2 (thorough 3) over a 60-token alphabet of keywords, identifiers, "
+             "literals, punctuation, a non-ASCII identifier, an unterminated string and an odd character; (mut) every text one mutation away (delete, duplicate, "
+             "swap, insert any alphabet token at any position, truncate) from 19 seed statements covering SELECT forms, DML, DDL, triggers, transactions, GRANT and "
+             "temporal literals; (nest) seventeen nesting / repetition shapes (parentheses, unary operators, CASE, subqueries, function calls, AND / + chains, IN "
+             "lists, column lists, joins, UNION, unbalanced parentheses, an unterminated string, huge identifiers and digit runs) at depths 10 .. 10 000 (thorough "
+             "100 000). Each input is handed to Parser::parse_sql - nested inputs each in a child process with a 4 GB address space and a 60 s clock, so that a "
+             "stack overflow, an abort, an allocation failure or a hang is an observation; TLC accepts exactly the outcomes 'statement' and 'parse error'.",
+        note="Thin, as announced in DESIGN.md: the specification contributes the input model and the outcome alphabet, it does not say which inputs are statements. "
+             "Quick: 3 661 + 14 244 + 68 inputs; thorough 219 661 + 14 244 + 85. Arbitrary Unicode beyond the alphabet is not enumerated."),
+    "C24": dict(
+        engine="total", category="model_checking",
+        technique="exact boundary arithmetic in TLA+ (Arith.tla) and hostile-statement model (MC_Hostile.tla) enumerated by TLC; statements executed on the real engine (one child process per hostile statement); observations validated by TLC (TraceArith.tla)",
+        design="DESIGN.md section 6 (C24), section 10",
+        text="(a) Arith.tla computes integer arithmetic near the 64-bit boundaries exactly with pairs Big(a, n) = a * 2^63 + n and defines the allowed "
+             "observations: the exact value (integer, or a float equal to it), NULL or an error; for an out-of-range result or floating-point operands also the "
+             "floating-point rounding - never an integer that differs from the exact value (a wrapped value differs in a) and never a panic. MC_Arith "
+             "enumerates +, -, *, unary minus, SUM, / 0 and % 0 over 13 x 13 boundary operands in three contexts (select list, WHERE, BIGINT column / aggregate). "
+             "(b) MC_Hostile.tla enumerates 921 hostile but plausible statements: 68 expressions (type mismatches, division by zero, extreme and malformed "
+             "literals, overflowing casts, giant REPEAT / LPAD, bad dates, missing columns) in 12 contexts (select list, WHERE, GROUP BY, ORDER BY, HAVING, aggregate "
+             "arguments, UPDATE SET, DELETE WHERE, CHECK), wrong arity, CHAR / VARCHAR truncation of non-ASCII text, missing objects, duplicate definitions, "
+             "malformed DDL and fragments; each runs in its own child process after a setup and is followed by a sanity statement. TLC accepts: the hostile "
+             "statement ends ok or err (no panic, abort, hang), the sanity statement succeeds.",
+        note=TRUST + "Release-mode wrap-around is covered through the value oracle (a wrapped integer is rejected whatever the build profile); the harness is "
+             "built with overflow checks on. Panics recorded by every other check's runs are violations of those checks' own reports (outcome panic)."),
+    "C30": dict(
+        engine="engine", category="model_checking", technique=T_ENGINE + "; the implementation is the compiled Python extension driven from Python",
+        design="DESIGN.md section 6 (C30), section 10",
+        text="MC_Bind.tla gives every cursor.execute(text, params) call its meaning as an ordinary Engine action: the statement obtained by replacing each '?' outside "
+             "string literals, left to right, by a literal of the corresponding parameter - no memory of earlier calls with the same text, no change of structure by "
+             "quotes or '?' inside values. TLC enumerates every sequence of calls over seven statement texts (INSERT, three SELECT shapes incl. a '?' inside a string "
+             "literal with and without a real placeholder next to it, UPDATE, DELETE) and parameter values (0, 1, -1, None; 'a', 'it''s', '?', 'a?b', '', an "
+             "injection-shaped string, 'a;b', None), with the set of texts already used kept in the state identity (statement cache). The Python driver hands text and "
+             "tuple to the extension built from /repo and projects table contents, fetched rows and rowcount; TraceEngine validates every call like any statement.",
+        note=TRUST + "Quick: sequences of <= 2 calls (2 574 scenarios), thorough <= 3. Floats (incl. inf / nan), bool and very large integers as parameters, "
+             "executemany and several cursors on one connection are not in this model."),
 }
 
 NOT_APPLICABLE = {
+    "C31": "no check was built in the time available (same technique planned: CsvJson.tla reference parsers, the CLI's data_io / copy handler compiled into a "
+           "harness binary, see DESIGN.md section 6); the exporter currently writes placeholder column names and Debug-formatted cells, so a check would "
+           "first need the repairs listed in DESIGN.md section 9",
 }
 
 PLANNED = "check not built yet (same technique planned, see DESIGN.md section 6); not claimed"
 
 HOOK_COMMITS = ["2f8c5872cefe0a8b8470394988dc531f4f461daa"]
 ENGINES = {
+    "total": {
+        "path": "/verif/spec/Arith.tla",
+        "text": "TLA+ models for the totality properties: exact boundary arithmetic (Arith.tla, MC_Arith), hostile statements (MC_Hostile), parser inputs (MC_Parser) "
+                "and the outcome alphabets (TraceArith.tla); executed through vq_run with child-process isolation",
+    },
     "btree": {
         "path": "/verif/spec/BTree.tla",
         "text": "TLA+ ordered-multimap model of the disk-backed B+ tree (BTree.tla) with its scenario generator (MC_BTree) and trace validator (TraceBTree); "
